@@ -85,7 +85,20 @@ def handle_check(prop, tier, seed):
         rc2, nh, hcov = hostile_part(prop, tier, seed, profiles=("release", "asan") if prop == "C02" else ("release",), tag=prop + "_hostile")
         extra = {"hostile_part": {k: hcov[k] for k in ("evaluations", "distinct_nontrivial", "fault_schedules_from_model", "builds", "rule")},
                  "_extra_violations": nh}
-    rc1 = H.report(prop, results, tier, seed, t0, assumptions=ASSUME_HANDLES + (ASSUME_THREADS if prop == "C03" else []) +
+    if prop == "C02":
+        # safe calls made from several threads are safe calls too: the canonical races of the
+        # concurrent harness, judged by AtomicsMonitor for accesses to freed blocks, double frees and
+        # frees that are not ordered after another thread's accesses (laws no_uaf, freed_once,
+        # free_ordered)
+        from . import threads as T
+        from . import atomics as A
+        tp = T.programs("quick", seed)
+        tr = T.run("C02_dfs", tp[:60] if tier == "quick" else tp, 20 if tier == "quick" else 60, free_runs=0, random_runs=5 if tier == "quick" else 20, seed=seed)
+        rc3, tcov, nh3 = A.report(prop, [tr], None, T.ordering_table(tr["trace"]), tier, seed, t0, ASSUME_THREADS, evidence=False)
+        rc2 = max(rc2, rc3)
+        extra["concurrent_part"] = {k: tcov[k] for k in ("programs", "executions", "evaluations", "distinct_nontrivial", "event_counts", "rule")}
+        extra["_extra_violations"] += nh3
+    rc1 = H.report(prop, results, tier, seed, t0, assumptions=ASSUME_HANDLES + (ASSUME_THREADS if prop in ("C02", "C03") else []) +
                    (ASSUME_HOSTILE if prop in ("C02", "C04") else []), mc=mcinfo, extra_cov=extra)
     return max(rc1, rc2)
 
@@ -223,6 +236,10 @@ def thread_check(prop, tier, seed):
     progs = T.programs(tier, seed)
     r = T.run("%s_dfs" % prop, progs, 40 if q else 150, free_runs=0, random_runs=20 if q else 40, seed=seed)
     results = [r]
+    # the build without debug assertions executes different code (debug_assert!, overflow checks):
+    # the canonical races and a sample of the universe again on the release profile
+    results.append(T.run("%s_rel" % prop, progs[:70] if q else progs[:400], 25 if q else 60, free_runs=0, random_runs=10 if q else 20, seed=seed + 1,
+                         profile="release"))
     if not q:
         results.append(T.run("%s_free" % prop, progs[:400], 1, free_runs=20))
     table = T.ordering_table(r["trace"])
@@ -312,6 +329,21 @@ def config_check(prop, tier, seed):
     ca = K.run_and_validate("C16_cur_debug", progs, profile="debug")
     cb = K.run_and_validate("C16_cur_release", progs, profile="release")
     comps.append(G.compare("C16_cur_release_vs_debug", ca["trace"], cb["trace"]))
+    # cursor / sink programs over the surface that exists without std (no reader / writer / chunks_vectored / io::Cursor):
+    # the crate built with its default features vs --no-default-features (std-only method overrides, cfg-gated paths)
+    STD_ONLY = ('"cursor"', '"read"', '"write"', '"fill_buf"', '"consume"', '"chunks_vectored"')
+    bp, _ = K.generate("C16_nostd_buf", "buf", 2, 2, 3, [0, 2, 3], ["remaining", "has_remaining", "chunk", "advance", "copy_to_slice", "copy_to_bytes",
+                       "try_copy_to_slice", "set_limit", "into_iter", "iter_nth", "get"], ["get_u16", "try_get_u32_le", "get_u8"], [0], 1, seed,
+                       simulate=(1500 if q else 15000, 30), leaf_types=["slice", "bytes", "bytesmut", "deque", "chunked"])
+    mp, _ = K.generate("C16_nostd_mut", "mut", 2, 2, 3, [0, 2, 3], ["remaining_mut", "has_remaining_mut", "chunk_mut_len", "put", "put_slice", "put_bytes",
+                       "put_buf", "manual", "set_limit", "advance_mut"], ["put_u16", "put_u32_le"], [0], 1, seed,
+                       simulate=(800 if q else 8000, 30), leaf_types=["slice", "uninit", "vec", "bytesmut"])
+    np_ = [p for p in bp + mp if not any(s in json.dumps({"t": p["tree"], "o": p["ops"]}) for s in STD_ONLY)]
+    if len(np_) < 100:
+        raise C.ToolError("only %d cursor programs without std-only operations" % len(np_))
+    na = K.run_and_validate("C16_cur_std", np_, profile="release")
+    nb = K.run_and_validate("C16_cur_nostd", np_, profile="release", no_default=True)
+    comps.append(G.compare("C16_cur_nostd_vs_std", na["trace"], nb["trace"]))
     # verdict: any diverging program
     rc = 0
     nnew = 0
